@@ -28,6 +28,9 @@ PROPERTIES
   Act_C03_StateOrder
   Act_C03_ClaimSound
   Act_C03_ClaimComplete
+  Act_C03_ClaimCompleteH
+  Act_C03_RefundAtExpiryH
+  Act_C13_QueueCompleteH
   Act_C03_RejectionsInert
   Act_C03_RefundAtExpiry
   Act_C03_ExactlyOnce
